@@ -32,3 +32,9 @@ func init() {
 		ruleSentinelProducible(r, "simpledb", "sstables", "memstore", "pq", "skiplist", "recordio", "recordio/proto", "wal", "wal/proto")
 	})
 }
+
+func init() {
+	register("ACQ", "debug: acquire-failure-closes over all packages", nil, func(r *Report) {
+		ruleAcquireFailureCloses(r, []string{"simpledb", "sstables", "memstore", "recordio", "recordio/proto", "wal", "wal/proto"})
+	})
+}
